@@ -196,6 +196,12 @@ fn main() {
         let mut r = base.fork(k as u64);
         let mut st = Store::new();
         let pool = make_pool(&mut st.xot, &mut st.reg, true);
+        // one history in eight is about wide elements: they start with a dozen or more entries in each map, and the calls draw
+        // their keys from the larger lists too
+        let wide = replay_lines.is_none() && r.chance(1, 8);
+        let attr_pool: Vec<usize> = if wide { pool.attr_names.iter().chain(pool.extra_attrs.iter()).copied().collect() } else { pool.attr_names.clone() };
+        let pf_pool: Vec<usize> = if wide { pool.prefixes.iter().chain(pool.extra_prefixes.iter()).copied().collect() } else { pool.prefixes.clone() };
+        let ur_pool: Vec<usize> = if wide { pool.uris.iter().chain(pool.extra_uris.iter()).copied().collect() } else { pool.uris.clone() };
         // start: a document with two sibling elements e1, e2 carrying 0-4 declarations and 0-4 attributes each
         let (case, start, ops_in): (String, Vec<ANode>, Option<Vec<Op>>) = match &replay_lines {
             Some(v) => {
@@ -206,6 +212,7 @@ fn main() {
                 (case.to_string(), xh::treeparse::parse_anodes(&tree_text), Some(parts.get(2).unwrap_or(&"").split(';').filter(|s| !s.is_empty()).map(parse_op).collect()))
             }
             None => {
+                let wide_case = wide;
                 let mk = |r: &mut Rng| -> ANode {
                     let mut ns = vec![];
                     for _ in 0..r.below(5) {
@@ -216,6 +223,12 @@ fn main() {
                     for _ in 0..r.below(5) {
                         let n = *r.pick(&pool.attr_names);
                         if !attrs.iter().any(|(m, _)| *m == n) { attrs.push((n, random_ident(r))); }
+                    }
+                    if wide_case {
+                        // a wide element: 11 … 20 more declarations and attributes (inline buffers and linear-scan limits of
+                        // 8 … 16 entries are exceeded)
+                        for i in 0..11 + r.below(10) { ns.push((pool.extra_prefixes[i], pool.extra_uris[(i * 5) % 24])); }
+                        for i in 0..11 + r.below(10) { attrs.push((pool.extra_attrs[i], format!("w{}", i))); }
                     }
                     let kids = if r.chance(1, 2) { vec![ANode::Text("t".into())] } else { vec![] };
                     ANode::Elem { name: *r.pick(&pool.names), ns, attrs, kids }
@@ -252,9 +265,9 @@ fn main() {
                     use Op::*;
                     let e = if r.chance(2, 3) { h1 } else { h2 };
                     let other = if e == h1 { h2 } else { h1 };
-                    let an = *r.pick(&pool.attr_names);
-                    let pf = *r.pick(&pool.prefixes);
-                    let ur = *r.pick(&pool.uris);
+                    let an = *r.pick(&attr_pool);
+                    let pf = *r.pick(&pf_pool);
+                    let ur = *r.pick(&ur_pool);
                     let v = random_ident(&mut r);
                     let live = st.live_handles();
                     let attr_nodes: Vec<Handle> = live.iter().copied().filter(|h| st.xot.is_attribute_node(st.known[h])).collect();
